@@ -1,6 +1,9 @@
 // C17 — "the process keeps running": the WORKER side of suite "alive" (see c17_alive.go).
 //
-//	corr c17aworker <sandbox root> <ingest port> <query port> [<esVersion>]
+//	corr c17aworker <sandbox root> <ingest port> <query port> [<esVersion> [orgs]]
+//
+// "orgs": the deployment resolves the organisation of a request (hooks.GlobalHooks.GetOrgIdHook / GetOrgIdHookQuery,
+// what the builds with several organisations install): here from the header X-Verif-Org, org 0 without it (suite alivepar).
 //
 // The worker IS a siglens server (same recipe as the C19 confinement worker): it writes a server.yaml into its working
 // directory (<root>/inst) and runs the real cmd/startup.Main() — configuration file → derived config → log file →
@@ -15,12 +18,16 @@ import (
 	"fmt"
 	"net"
 	"os"
+	"strconv"
 	"strings"
 	"syscall"
 	"time"
 
+	"github.com/valyala/fasthttp"
+
 	"github.com/siglens/siglens/cmd/startup"
 	"github.com/siglens/siglens/pkg/config"
+	"github.com/siglens/siglens/pkg/hooks"
 	"github.com/siglens/siglens/pkg/scroll"
 	"github.com/siglens/siglens/pkg/segment/writer"
 	"github.com/siglens/siglens/pkg/segment/writer/metrics"
@@ -38,6 +45,14 @@ func c17aWorkerMain() {
 	esVersion := "7.9.3"
 	if len(os.Args) > 5 { // 6.x registers the ingest routes with a document type, 7.x the ones without
 		esVersion = os.Args[5]
+	}
+	if len(os.Args) > 6 && os.Args[6] == "orgs" {
+		orgOf := func(ctx *fasthttp.RequestCtx) (int64, error) {
+			n, _ := strconv.ParseInt(string(ctx.Request.Header.Peek("X-Verif-Org")), 10, 64)
+			return n, nil
+		}
+		hooks.GlobalHooks.GetOrgIdHook = orgOf
+		hooks.GlobalHooks.GetOrgIdHookQuery = orgOf
 	}
 	cwd, err := os.Getwd()
 	if err != nil || !strings.HasPrefix(cwd, root+"/") {
